@@ -11,6 +11,7 @@
    des_hyps_nonvacuous, reject_nonvacuous (C12/Proofs_API.v) and the KAT files. *)
 From MV Require Import C12.Modes C12.Proofs_Modes C12.Proofs_DES C12.Proofs_AES C12.Proofs_AES_Key C12.Proofs_API.
 From MV Require Import C12.Proofs_SP80038A C12.KAT_AES C12.KAT_DES C12.KAT_Modes.
+From MV Require Import C12.Impl_DES C12.Impl_AES C12.Proofs_Impl_DES C12.Proofs_Impl_AES.
 Local Open Scope N_scope.
 
 (* ===== 1. the mode loops, generic over ANY block primitive E with inverse D on bs-byte blocks ===== *)
@@ -308,3 +309,60 @@ Print Assumptions des_spec_reproduces_known_answers.
 Theorem modes_reproduce_sp80038a_vectors : sp80038a_vectors_hold.
 Proof. exact sp80038a_vectors_ok. Qed.
 Print Assumptions modes_reproduce_sp80038a_vectors.
+
+(* ===== 5. the code that actually runs (MUGGLE_CRYPT_OPTIMIZATION = 1): crypt/openssl/openssl_des.c and the
+   S-box circuits of crypt/openssl/openssl_aes.c, as coded, equal the specification layer on ALL inputs =====
+   C12/Impl_DES.v writes openssl_des.c in a small word-level language (C12/Bitvec.v): C2L loads, the PERM_OP /
+   HPERM_OP / ROTATE macros, IP and FP as PERM_OP sequences, D_ENCRYPT with the SP tables, DES_set_key_unchecked
+   with the skb tables, encrypt1 / encrypt2, the sub-key swap for decryption, the EDE chain of
+   muggle_openssl_tdes_crypt.  Tables, PERM_OP argument lists, lookup order, shift schedules and the bitsliced
+   S-box circuits are re-extracted from the source into coq/gen/Params_C12.v on every run, so a changed table
+   entry or mask breaks these obligations.  Proof: symbolic evaluation over GF(2)-affine forms of the input bits
+   (proved sound) for every bit permutation / selection, a 512-entry sweep for the SP tables, linearity sweeps for
+   the skb tables; for the AES circuits a dependency analysis (proved sound) showing that they work byte lane by
+   byte lane, then a 256-value sweep per lane. *)
+
+(* muggle_openssl_des_gen_subkeys + muggle_openssl_des_crypt = FIPS 46-3, every key, every block, both directions *)
+Theorem des_impl_equals_spec : forall o key blk, wfb 8 key -> wfb 8 blk ->
+  impl_des_crypt (impl_gen_subkeys (op_is_dec o) key) blk = des_crypt (des_gen_subkeys o key) blk.
+Proof. exact des_impl_equals_spec_thm. Qed.
+Print Assumptions des_impl_equals_spec.
+
+(* DES_set_key_unchecked (PC-1 by PERM_OP/HPERM_OP, the rotations, PC-2 through the skb tables, the packing into
+   two rotated words per round) = the 16 sub-keys K1..K16 of the standard in the implementation's word layout *)
+Theorem des_key_schedule_impl_equals_spec : forall key, wfb 8 key ->
+  impl_set_key key = map kwpair (des_subkeys key).
+Proof. exact set_key_spec_bytes. Qed.
+Print Assumptions des_key_schedule_impl_equals_spec.
+
+(* one D_ENCRYPT (eight SP-table lookups) = one Feistel round  L xor f(R, K)  of the standard *)
+Theorem des_round_impl_equals_spec : forall L R K, length L = 32%nat -> length R = 32%nat -> length K = 48%nat ->
+  d_enc_lr (word_of L, word_of R) (kwpair K) = (word_of (xorbl L (des_f R K)), word_of R).
+Proof. exact d_enc_lr_spec. Qed.
+Print Assumptions des_round_impl_equals_spec.
+
+(* muggle_openssl_tdes_crypt (IP once, three DES_encrypt2 passes, FP once) = DES o DES o DES of the standard with
+   the three key schedules as muggle_tdes_set_key arranges them *)
+Theorem tdes_impl_equals_spec : forall o1 o2 o3 k1 k2 k3 blk, wfb 8 k1 -> wfb 8 k2 -> wfb 8 k3 -> wfb 8 blk ->
+  impl_tdes_crypt (impl_gen_subkeys (op_is_dec o1) k1) (impl_gen_subkeys (op_is_dec o2) k2) (impl_gen_subkeys (op_is_dec o3) k3) blk =
+  des_crypt (des_gen_subkeys o3 k3) (des_crypt (des_gen_subkeys o2 k2) (des_crypt (des_gen_subkeys o1 k1) blk)).
+Proof. exact tdes_impl_equals_spec_thm. Qed.
+Print Assumptions tdes_impl_equals_spec.
+
+(* the constant-time bitsliced S-box circuits: openssl_sub_u64 (SubBytes on 8 state bytes at once), openssl_inv_sub_u64
+   (InvSubBytes), openssl_sub_u32 (SubWord of the key expansion) = the FIPS-197 S-box / inverse S-box on every byte,
+   for all 2^64 (2^32) words *)
+Theorem aes_sbox_impl_equals_spec : forall bs, length bs = 8%nat -> bytes bs ->
+  impl_sub_u64 (of_le bs) = of_le (map sbox bs).
+Proof. exact sub_u64_bytes. Qed.
+Print Assumptions aes_sbox_impl_equals_spec.
+
+Theorem aes_inv_sbox_impl_equals_spec : forall bs, length bs = 8%nat -> bytes bs ->
+  impl_inv_sub_u64 (of_le bs) = of_le (map inv_sbox bs).
+Proof. exact inv_sub_u64_bytes. Qed.
+Print Assumptions aes_inv_sbox_impl_equals_spec.
+
+Theorem aes_subword_impl_equals_spec : forall bs, length bs = 4%nat -> bytes bs ->
+  impl_sub_u32 (of_le bs) = of_le (map sbox bs).
+Proof. exact sub_u32_bytes. Qed.
+Print Assumptions aes_subword_impl_equals_spec.
